@@ -190,7 +190,9 @@ class Sess(object):
         from glue.core import BaseData
         if isinstance(L, BaseData):
             return (0, self.data_id(L))
-        d = L.data
+        d = getattr(L, 'data', None)
+        if d is None or not hasattr(d, 'subsets'):
+            return (1, -8, self.group_id(getattr(L, 'group', None)), -1)      # a subset detached from any dataset
         same = [s for s in d.subsets if getattr(s, 'group', None) is getattr(L, 'group', None)]
         k = -1
         for i, s in enumerate(same):
@@ -340,16 +342,21 @@ class Sess(object):
                 if not any(L is x for x in self.dc):
                     problems.append('layer for a dataset that is not in the collection: %r' % (self.layer_key(L),))
             else:
-                if not any(L.data is x for x in self.dc):
+                if getattr(L, 'data', None) is None:
+                    problems.append('layer for a deleted subset (no dataset): %r' % (self.layer_key(L),))
+                elif not any(L.data is x for x in self.dc):
                     problems.append('layer for a subset of a removed dataset: %r' % (self.layer_key(L),))
                 elif not any(L is s for s in L.data.subsets):
                     problems.append('layer for a subset its dataset no longer has: %r' % (self.layer_key(L),))
                 elif fixed and not any(getattr(L, 'group', None) is g for g in self.dc.subset_groups):
                     problems.append('layer for a subset of a removed group: %r' % (self.layer_key(L),))
-        problems += state_picker_problems(v.state, self.dc, 'viewer.state')
-        for ls in v.state.layers:
-            problems += state_picker_problems(ls, self.dc, 'layer state')
-        problems += viewer_helper_problems(v, self)
+        try:
+            problems += state_picker_problems(v.state, self.dc, 'viewer.state')
+            for ls in v.state.layers:
+                problems += state_picker_problems(ls, self.dc, 'layer state')
+            problems += viewer_helper_problems(v, self)
+        except Exception as e:
+            problems.append('the pickers of the viewer state could not be evaluated: %s: %s' % (type(e).__name__, e))
         return problems
 
 
